@@ -43,7 +43,7 @@ Section Template.
     match d with
     | O => (s, Err e_depth)
     | S d' =>
-      sbind (sret s (tts "skipdecoder_tpl" t)) (fun s sz =>
+      sbind (sret s (tts STpl t)) (fun s sz =>
       if (0 <? sz)%Z then sbind (skipN s (Z.to_N sz)) (fun s' _ => (s', Ok tt))
       else if is_ty t thrift_STRING then
         sbind (skipN s 4) (fun s1 b =>
@@ -59,8 +59,8 @@ Section Template.
         let '(kt, vt, u) := h in
         let sz := i32 u in
         if (sz <? 0)%Z then (s1, Err e_neg_size) else
-        sbind (sret s1 (tts "skipdecoder_tpl" kt)) (fun s1 ksz =>
-        sbind (sret s1 (tts "skipdecoder_tpl" vt)) (fun s1 vsz =>
+        sbind (sret s1 (tts STpl kt)) (fun s1 ksz =>
+        sbind (sret s1 (tts STpl vt)) (fun s1 vsz =>
         if (0 <? ksz)%Z && (0 <? vsz)%Z then
           sbind (skipN s1 (Z.to_N (sz * (ksz + vsz)))) (fun s2 _ => (s2, Ok tt))
         else
@@ -71,7 +71,7 @@ Section Template.
         let '(vt, u) := h in
         let sz := i32 u in
         if (sz <? 0)%Z then (s1, Err e_neg_size) else
-        sbind (sret s1 (tts "skipdecoder_tpl" vt)) (fun s1 vsz =>
+        sbind (sret s1 (tts STpl vt)) (fun s1 vsz =>
         if (0 <? vsz)%Z then
           sbind (skipN s1 (Z.to_N (sz * vsz))) (fun s2 _ => (s2, Ok tt))
         else
